@@ -544,7 +544,20 @@ fn quant_data(case: &Value) -> Value {
             let mut data: Vec<f64> = keys.iter().map(|&k| k as f64).collect();
             let p = case["nanpos"].as_u64().unwrap_or(0) as usize;
             if p < data.len() { data[p] = f64::NAN; }
-            guard(|| enc_iv_pos(quantile::ci(conf, &data, q), &|x: &f64| *x as i64))
+            // a NaN bound in an Ok result is reported as the key -999
+            let back = |x: &f64| if x.is_nan() { -999 } else { *x as i64 };
+            guard(|| {
+                let r = match entry {
+                    "ci" => quantile::ci(conf, &data, q),
+                    "max_n" => match data.len() {
+                        4 => quantile::ci_max_size::<f64, _, 4>(conf, &data, q),
+                        7 => quantile::ci_max_size::<f64, _, 7>(conf, &data, q),
+                        _ => quantile::ci_max_size::<f64, _, 4096>(conf, &data, q),
+                    },
+                    _ => quantile::ci_max_size::<f64, _, { quantile::DATA_CAP }>(conf, &data, q),
+                };
+                enc_iv_pos(r, &back)
+            })
         }
         t => panic!("type {}", t),
     };
